@@ -16,7 +16,7 @@ from ..front import AnalysisError
 from ..harness import (Explorer, make_belief_base, make_epistemic_state, make_query, A, B, QUERY, material, verification,
                        falsification, canon_items, canon_item, flat, each_item, show_items, show_item, fn_label, decided,
                        KEYS_D, returned_bool, P_value, PVAR, layer_fam, LEN_P, LAST, K, reccall_summary, rc2_state,
-                       RC2_SUMMARIES, RC2_HOOKS, wcnf_view, norm_witem, eval_pred, pred_atoms, view, CONDZ3_CLASS)
+                       RC2_SUMMARIES, RC2_HOOKS, wcnf_view, norm_witem, eval_pred, pred_atoms, view, CONDZ3_CLASS, cnf_value)
 from . import wrappers
 from .sysz import not_falsified, start_strict, start_total, INF_ITEM, vacuity_guard, inference_entry, _index_arg, ext_terminal_answers
 
@@ -49,9 +49,47 @@ class Backend:
     def state(self, I, query_slots=True):
         if self.name == "rc2":
             st = {"partition": P_value("key")}
-            st.update(rc2_state(I, query_slots=query_slots))
+            st.update(rc2_state(I, query_slots=False))
+            if query_slots:
+                # the query's CNFs are placed where the operator's own `_inference` puts them (W.query-slot)
+                for container, key, kind in (self.qslots or []):
+                    val = cnf_value(verification(QUERY) if kind == "v" else falsification(QUERY))
+                    if container == "state":
+                        st[key] = val
+                    else:
+                        I.deref(st[container]).entries[key] = val
             return st, Const("rc2")
         return {"partition": P_value("cond", CONDZ3_CLASS)}, Const("z3")
+
+    qslots = None
+
+    def discover_query_slots(self, ex):
+        """Where does `_inference` store the CNFs of the query's verification / falsification?"""
+        if self.name != "rc2" or self.qslots is not None:
+            return self.qslots
+        site, paths = entry_paths(None, ex, self)
+        found = []
+        for p in paths:
+            names = {}
+            state_oid = None
+            for oid, o in p.state.heap.items():
+                if hasattr(o, "entries") and "v_cnf_dict" in getattr(o, "entries", {}):
+                    state_oid = oid
+                    for nm in ("v_cnf_dict", "f_cnf_dict", "nf_cnf_dict"):
+                        r = o.entries.get(nm)
+                        if isinstance(r, Ref):
+                            names[r.oid] = nm
+            for ev, Q in iter_events(p.events):
+                if ev.kind == "dict.set" and isinstance(ev.obj, Ref) and isinstance(ev.value, ElemV) and ev.value.role == "cnf" and isinstance(ev.key, Const) and not Q:
+                    f = ev.value.var[1]
+                    kind = "v" if F.equiv(f, verification(QUERY)) else ("f" if F.equiv(f, falsification(QUERY)) else None)
+                    if kind is None:
+                        continue
+                    container = "state" if ev.obj.oid == state_oid else names.get(ev.obj.oid)
+                    if container and (container, ev.key.value, kind) not in found:
+                        found.append((container, ev.key.value, kind))
+        self.qslots = found
+        return found
 
     def rec_setup(self):
         def setup(I):
@@ -274,6 +312,7 @@ def w_rec(rep, ex: Explorer, be: Backend):
     """W.soft/hard, W.ignore, W.subset-test, W.decision on `_rec_inference`."""
     qual = f"{be.cls}._rec_inference"
     site = fn_label(ex.prog, qual)
+    be.discover_query_slots(ex)
     I_hooks = be.hooks()
     paths = ex.run(qual, be.rec_setup(), summaries=be.summaries(), key=f"wrec-{be.name}", hooks=I_hooks)
     n_rows = 0
@@ -485,38 +524,42 @@ def rec_objects(be: Backend, rc):
 
 
 def query_slots(rep, be: Backend, site, p, prefix, keys=False):
-    """rc2: the query's CNFs are stored in the v/f slots that `_rec_inference` reads (writer/reader agreement)."""
-    es_heap = p.state.heap
-    got = {}
-    for ev, Q in iter_events(p.events):
-        if ev.kind == "dict.set" and isinstance(ev.obj, Ref) and isinstance(ev.value, ElemV) and ev.value.role == "cnf":
-            got.setdefault(ev.obj.oid, []).append(ev)
-    # which dict is which: by looking at the state's slots
-    slots = {}
-    for oid, o in es_heap.items():
+    """rc2: the query's CNFs are stored where `_rec_inference` reads them (the reader side is decided by
+    W/LEX.soft/hard on a state seeded from these very stores); QUERYSLOT.def-before-use: both are written before the
+    recursion starts; KEY.no-reserved: not under a literal key of a dictionary that is keyed by the base's keys."""
+    state_oid = None
+    names = {}
+    for oid, o in p.state.heap.items():
         if hasattr(o, "entries") and "v_cnf_dict" in getattr(o, "entries", {}):
-            for name in ("v_cnf_dict", "f_cnf_dict", "nf_cnf_dict"):
-                r = o.entries.get(name)
+            state_oid = oid
+            for nm in ("v_cnf_dict", "f_cnf_dict", "nf_cnf_dict"):
+                r = o.entries.get(nm)
                 if isinstance(r, Ref):
-                    slots[r.oid] = name
-    for oid, evs in got.items():
-        name = slots.get(oid, "?")
-        for ev in evs:
+                    names[r.oid] = nm
+    evs = [ev for ev, Q in iter_events(p.events)]
+    kinds = {}
+    for i, ev in enumerate(evs):
+        if ev.kind == "dict.set" and isinstance(ev.obj, Ref) and isinstance(ev.value, ElemV) and ev.value.role == "cnf":
             f = ev.value.var[1]
+            kind = "v" if F.equiv(f, verification(QUERY)) else ("f" if F.equiv(f, falsification(QUERY)) else None)
+            container = "state" if ev.obj.oid == state_oid else names.get(ev.obj.oid, "?")
             where = f"{site}:{ev.node.lineno}"
-            if name == "v_cnf_dict":
-                rep.check(F.equiv(f, verification(QUERY)), f"{prefix}.query-slot", where, "v slot", "the slot read as the V-side holds the CNF of the query's verification",
-                          extracted=F.show(f), required="Q.A∧Q.B", function=site)
-            elif name == "f_cnf_dict":
-                rep.check(F.equiv(f, falsification(QUERY)), f"{prefix}.query-slot", where, "f slot", "the slot read as the F-side holds the CNF of the query's falsification",
-                          extracted=F.show(f), required="Q.A∧¬Q.B", function=site)
-            if keys and name in ("f_cnf_dict", "nf_cnf_dict", "v_cnf_dict"):
+            rep.check(kind is not None, f"{prefix}.query-slot", where, f"{container}[{ev.key!r}]", "a CNF stored by `_inference` is that of the query's verification or falsification",
+                      extracted=F.show(f), required="Q.A∧Q.B or Q.A∧¬Q.B", function=site)
+            if kind:
+                kinds[kind] = i
+            if keys and container in ("f_cnf_dict", "nf_cnf_dict"):
                 lit = isinstance(ev.key, Const)
-                # a literal key in a dictionary that is keyed by the base's own keys
-                keyed = name in ("f_cnf_dict", "nf_cnf_dict")  # filled per base key by preprocessing (CNF.roles)
-                if keyed:
-                    rep.check(not lit, "KEY.no-reserved", where, f"query slot of {name}", "the query is stored under a key that cannot collide with a key of the base",
-                              extracted=f"literal key {ev.key.value!r}" if lit else repr(ev.key), required="a key provably outside the base's keys", function=site)
+                rep.check(not lit, "KEY.no-reserved", where, f"query slot of {container}", "the query is stored under a key that cannot collide with a key of the base (the per-conditional CNF dictionaries are keyed by the base's keys)",
+                          extracted=f"literal key {ev.key.value!r}" if lit else repr(ev.key), required="a slot provably outside the base's keys", function=site)
+            elif keys:
+                rep.ok("KEY.no-reserved", where, f"query slot {container}[{ev.key!r}]", "the query has a slot of its own")
+    rcs = [i for i, ev in enumerate(evs) if ev.kind in ("reccall", "mcs")]
+    if rcs:
+        first = min(rcs)
+        okw = all(k in kinds and kinds[k] < first for k in ("v", "f"))
+        rep.check(okw, "QUERYSLOT.def-before-use", site, "query slots written first", "both query slots are (re)written for the current query before the recursion reads them",
+                  extracted=str({k: (v < first) for k, v in kinds.items()}), required="v and f written before use", function=site)
 
 
 def w_entry(rep, ex: Explorer, be: Backend, strict=True, extended=False, prefix="W", keys=False, n_objects=1):
@@ -592,6 +635,7 @@ def lex_rec(rep, ex: Explorer, be: Backend):
     """LEX.soft/hard, LEX.cardinality on `_rec_inference` (generic families); ties are decided by lex_ties."""
     qual = f"{be.cls}._rec_inference"
     site = fn_label(ex.prog, qual)
+    be.discover_query_slots(ex)
     paths = ex.run(qual, be.rec_setup(), summaries=be.summaries(), key=f"lexrec-{be.name}", hooks=be.hooks())
     n_rows = 0
     for p in paths:
@@ -747,6 +791,7 @@ def lex_ties(rep, ex: Explorer, be: Backend):
 
     qual = f"{be.cls}._rec_inference"
     site = fn_label(ex.prog, qual)
+    be.discover_query_slots(ex)
     role = be.role
     calls = {"n": 0}
 
